@@ -12,9 +12,11 @@
 // Mode 2 (explore): after a disagreement the model is no longer trusted for this code.
 // The driver then enumerates the gate schedules of the real code itself (DFS with the
 // projection as visited-set key) and judges outcomes only by the property oracles:
-//   C02  two goroutines inside Invoke at once
-//   C03  everything finished, inbox started and not stopped, ring not empty
-//   C01  duplicate / reordered-per-sender / altered / missing delivery
+//
+//	C02  two goroutines inside Invoke at once
+//	C03  everything finished, inbox started and not stopped, ring not empty
+//	C01  duplicate / reordered-per-sender / altered / missing delivery
+//
 // A disagreement without an oracle failure is reported as non-conformance, not a violation.
 package main
 
@@ -133,7 +135,18 @@ func (p *recProc) Invoke(msgs []actor.Envelope) {
 			p.inst.altered = append(p.inst.altered, m.String())
 		}
 	}
+	entry := make([]actor.Envelope, len(msgs))
+	copy(entry, msgs)
 	sched.Gate(sched.Op{Kind: "InvExit"})
+	// process.Invoke reads the batch element by element while other goroutines keep sending: the slice handed to
+	// Invoke must not change under it (read again after an arbitrary number of foreign steps)
+	for i := range msgs {
+		if msgs[i] != entry[i] {
+			was, _ := entry[i].Msg.(payload)
+			now, _ := msgs[i].Msg.(payload)
+			p.inst.altered = append(p.inst.altered, fmt.Sprintf("batch element %d changed from %v to %v while Invoke was running", i, was, now))
+		}
+	}
 	p.inst.inside.Add(-1)
 }
 
@@ -163,7 +176,11 @@ type inst struct {
 	inbatch    map[string][]msg
 	err        error
 	realLen    func() int64
+	exploring  bool
+	extra      int
 }
+
+var errHarnessLimit = fmt.Errorf("harness limit: more than 64 extra worker goroutines")
 
 func (in *inst) senderPID(s string, k int) *actor.PID {
 	if k%2 == 0 {
@@ -231,7 +248,9 @@ func (x *inst) learnAddr() {
 			}
 		case "Len", "Push", "PopN":
 			if x.realLen == nil {
-				type lener interface{ Real() interface{ Len() int64 } }
+				type lener interface {
+					Real() interface{ Len() int64 }
+				}
 				_ = lener(nil)
 			}
 		}
@@ -405,7 +424,15 @@ func (x *inst) step(name string) error {
 			}
 		}
 		if slot == "" {
-			return fmt.Errorf("more live workers than slots")
+			if !x.exploring {
+				return fmt.Errorf("more live workers than slots")
+			}
+			// mode 2: the code is judged by the oracles only; it may create more goroutines than the model has slots for
+			x.extra++
+			if x.extra > 64 {
+				return errHarnessLimit
+			}
+			slot = fmt.Sprintf("x%d", x.extra)
 		}
 		ng.Name = slot
 		x.threads[slot] = ng
@@ -462,7 +489,7 @@ func (x *inst) oracles(terminal bool) []verdict {
 		}
 	}
 	if len(x.altered) > 0 {
-		out = append(out, verdict{"C01", "sender altered for " + strings.Join(x.altered, ",")})
+		out = append(out, verdict{"C01", "message or sender altered: " + strings.Join(x.altered, ", ")})
 	}
 	if terminal && !x.cfg.WithStop {
 		total := len(x.cfg.Senders) * x.cfg.NMsg
@@ -593,6 +620,10 @@ func main() {
 				rep.Divergences = append(rep.Divergences, divergence{cfg.RingSize, names, want[e.Dst], got, ""})
 				return false
 			}
+			if len(x.altered) > 0 {
+				rep.Divergences = append(rep.Divergences, divergence{cfg.RingSize, names, want[e.Dst], "", x.altered[0]})
+				return false
+			}
 			cur = e.Dst
 		}
 		if g.Terminal(cur) {
@@ -638,12 +669,17 @@ func explore(cfg config, rep *report, budget time.Duration) {
 			rep.Error = err.Error()
 			return
 		}
+		x.exploring = true
 		er.Runs++
 		ok := true
 		for _, th := range path {
 			er.Steps++
 			if err := x.step(th); err != nil {
-				record(rep, seenViol, cfg, path, []verdict{{"C01", err.Error()}, {"C02", err.Error()}, {"C03", err.Error()}})
+				if !isCodeFailure(err) {
+					er.Complete = false
+				} else {
+					record(rep, seenViol, cfg, path, []verdict{{"C01", err.Error()}, {"C02", err.Error()}, {"C03", err.Error()}})
+				}
 				ok = false
 				break
 			}
@@ -671,7 +707,11 @@ func explore(cfg config, rep *report, budget time.Duration) {
 			er.Steps++
 			if err := x.step(en[0]); err != nil {
 				cur = append(cur, en[0])
-				record(rep, seenViol, cfg, cur, []verdict{{"C01", err.Error()}, {"C02", err.Error()}, {"C03", err.Error()}})
+				if !isCodeFailure(err) {
+					er.Complete = false
+				} else {
+					record(rep, seenViol, cfg, cur, []verdict{{"C01", err.Error()}, {"C02", err.Error()}, {"C03", err.Error()}})
+				}
 				break
 			}
 			cur = append(cur, en[0])
@@ -682,6 +722,12 @@ func explore(cfg config, rep *report, budget time.Duration) {
 			break
 		}
 	}
+}
+
+// isCodeFailure: a panic inside the inbox / ring code under some schedule is a failure of the code (the message in
+// hand is lost, the actor dies); everything else step() can report is a limit of the harness and proves nothing
+func isCodeFailure(err error) bool {
+	return strings.HasPrefix(err.Error(), "panic in ")
 }
 
 func record(rep *report, seen map[string]bool, cfg config, sched []string, vs []verdict) {
@@ -716,9 +762,14 @@ func doReplay(path string, _ config) int {
 		fmt.Fprintln(os.Stderr, err)
 		return 2
 	}
+	x.exploring = true
 	defer x.close()
 	for _, th := range rf.Schedule {
 		if err := x.step(th); err != nil {
+			if !isCodeFailure(err) {
+				fmt.Println("NOT-REPRODUCED (harness):", err)
+				return 0
+			}
 			fmt.Println("REPRODUCED:", err)
 			return 1
 		}
